@@ -3,8 +3,11 @@
 package route
 
 import (
+	"context"
 	"net/http"
 	"time"
+
+	huskyotlp "github.com/honeycombio/husky/otlp"
 )
 
 // Verification hooks for property C20 (add-only, compiled only with -tags verif).
@@ -31,3 +34,9 @@ func (r *Router) VerifC20Event(w http.ResponseWriter, req *http.Request) { r.eve
 
 // VerifC20Batch is the handler registered for POST /1/batch/{datasetName}.
 func (r *Router) VerifC20Batch(w http.ResponseWriter, req *http.Request) { r.batch(w, req) }
+
+// VerifC20OTLPBatchMsgp is what the OTLP trace handlers call once husky has translated a request
+// into batches of msgpack-encoded attribute maps.
+func (r *Router) VerifC20OTLPBatchMsgp(ctx context.Context, batches []huskyotlp.BatchMsgp, apiKey, userAgent string) error {
+	return r.processOTLPRequestBatchMsgp(ctx, batches, apiKey, userAgent)
+}
